@@ -26,6 +26,9 @@ type RecWriter struct {
 	Delay   func(call int) time.Duration
 	// FailOnce makes only call FailAt fail; later calls succeed again.
 	FailOnce bool
+	// FullCount makes the failing call accept all of its data and return
+	// (len(p), error): the boundary case of "error after partial data".
+	FullCount bool
 	Failed   bool
 }
 
@@ -55,6 +58,10 @@ func (w *RecWriter) Write(p []byte) (int, error) {
 		if w.Partial && call == w.FailAt {
 			n = len(p) / 2
 			w.buf = append(w.buf, p[:n]...)
+		}
+		if w.FullCount && call == w.FailAt {
+			n = len(p)
+			w.buf = append(w.buf, p...)
 		}
 		return n, ErrInjected
 	}
